@@ -134,10 +134,65 @@ def r18_5(run, model):
            witness="#[derive(ToString)] and #[derive(ToJson)] on separate lines: the second is dropped silently")
 
 
+def _literal_fragments(run, f):
+    """string fragments a body builder emits: EString values and format! templates (placeholders removed, {{ }} unescaped)"""
+    out = []
+    for st in S.find(f.body, "Struct"):
+        if st["segs"][-1] != "EString":
+            continue
+        for fl in st["fields"]:
+            if fl["name"] != "value":
+                continue
+            e = fl["expr"]
+            lit = None
+            for n in S.walk(e):
+                if n["k"] == "Lit" and n.get("lit") == "Str":
+                    lit = n["value"]
+                    break
+                if n["k"] == "Macro" and n["name"] == "format" and n.get("args") and n["args"][0]["k"] == "Lit":
+                    t = n["args"][0]["value"].replace("{{", "\x01").replace("}}", "\x02")
+                    t = re.sub(r"\{[^{}]*\}", "", t)
+                    lit = t.replace("\x01", "{").replace("\x02", "}")
+                    break
+            if lit is not None:
+                out.append((lit, st))
+    return out
+
+
+def r18_6(run, model):
+    run.rule("R18.6", "the JSON / text skeleton a body builder emits is balanced: over the fragments of one builder braces and brackets close, "
+                      "every fragment has an even number of double quotes, and separators are only emitted between elements (guarded by the index)")
+    n = 0
+    for f in model.fns(DER):
+        if f.body is None or not re.fullmatch(r"build_(struct|enum)(_json)?_body", f.name):
+            continue
+        frs = _literal_fragments(run, f)
+        n += len(frs)
+        is_json = "json" in f.name
+        for o, c in (("{", "}"), ("[", "]"), ("(", ")")):
+            # fragments that are complete on their own (e.g. the empty-struct early return) are balanced by themselves
+            opens = sum(x.count(o) for x, _ in frs)
+            closes = sum(x.count(c) for x, _ in frs)
+            run.ob("R18.6", f"{f.name}|{o}{c} balanced", opens == closes, site(DER, f.node["sp"]), f"{opens} `{o}` vs {closes} `{c}` over fragments {[x for x, _ in frs]}",
+                   witness="to_json returns text that does not parse: an object/array is left open")
+        if is_json:
+            odd = [x for x, _ in frs if x.count('"') % 2]
+            run.ob("R18.6", f"{f.name}|quotes paired in every fragment", not odd, site(DER, f.node["sp"]), f"fragments with an odd number of quotes: {odd or 'none'}")
+            par = S.Parents(f.body)
+            for x, st in frs:
+                if x.strip() == ",":
+                    guards = [S.norm_ws(run.facts.text(DER, a["cond"]["sp"])) for a in par.ancestors(st) if a["k"] == "If" and S.span_contains(a["then"]["sp"], st["sp"])]
+                    ok = any(re.fullmatch(r"idx>0|idx!=0|i>0|!first", g) for g in guards)
+                    run.ob("R18.6", f"{f.name}|comma only between elements", ok, site(DER, st["sp"]), f"`,` fragment guarded by {guards or 'nothing'}",
+                           witness="a leading or trailing comma: invalid JSON")
+    run.floor("literal fragments of derive body builders", n, 12)
+
+
 def run(run, model):
     run.try_rule(r18_1, model)
     run.try_rule(r18_2, model)
     run.try_rule(r18_3, model)
     run.try_rule(r18_4, model)
     run.try_rule(r18_5, model)
+    run.try_rule(r18_6, model)
     run.assume("numeric leaves go through *_to_string, whose verbs are checked by C10 R10.4")
